@@ -305,7 +305,11 @@ def sp_open_tx(g, a):
         aa0 = (g.r[1] & 1) != 0
         for i, b in enumerate(addr):
             g.a[0x10][i] = b
-            g.a[0x0A][i] = s_ite(aa0, b, g.a[0x0A][i])
+        # "RX pipe 0 is appropriated with the TX address when auto_ack is enabled for data pipe 0" (basic_api.rst):
+        # the complete resulting TX address, and the pipe is enabled when the radio is in TX mode (ACK reception)
+        for i in range(5):
+            g.a[0x0A][i] = s_ite(aa0, g.a[0x10][i], g.a[0x0A][i])
+        g.r[2] = s_ite(s_and(aa0, (g.r[0] & 1) == 0), g.r[2] | 1, g.r[2])
     return False, True, None, ap
 
 
